@@ -54,6 +54,8 @@ type Fetch struct {
 	Cid  cid.Cid
 	done chan struct{}
 	ok   bool
+	// waiters counts the goroutines parked on this fetch
+	waiters int
 }
 
 type World struct {
@@ -227,15 +229,31 @@ func (d dagAPI) Get(ctx context.Context, c cid.Cid) (ipld.Node, error) {
 			return b, nil
 		}
 	}
-	w.nextID++
-	f := &Fetch{ID: w.nextID, Node: d.n.Index, Cid: c, done: make(chan struct{})}
-	w.fetches = append(w.fetches, f)
+	// one pending fetch per (node, block): concurrent requests of the same block by several goroutines of the
+	// node's replicator wait on the same fetch, so the set of pending fetches at a quiescent point does not
+	// depend on how many of them happened to ask before the first answer came
+	var f *Fetch
+	for _, x := range w.fetches {
+		if x.Node == d.n.Index && x.Cid == c {
+			f = x
+			break
+		}
+	}
+	if f == nil {
+		w.nextID++
+		f = &Fetch{ID: w.nextID, Node: d.n.Index, Cid: c, done: make(chan struct{})}
+		w.fetches = append(w.fetches, f)
+	}
+	f.waiters++
 	w.mu.Unlock()
 	select {
 	case <-f.done:
 	case <-ctx.Done():
 		w.mu.Lock()
-		w.removeFetchLocked(f)
+		f.waiters--
+		if f.waiters == 0 {
+			w.removeFetchLocked(f)
+		}
 		w.mu.Unlock()
 		return nil, ctx.Err()
 	}
